@@ -19,18 +19,20 @@ LEVEL_TEXT = ("held on the generated histories and on every generated specifier 
 RULE = ("case = one generated history (quick <= 9 revisions + 3 interleaved steps, thorough <= 24 + 6; <= 3 branches; 2a and pack-0.92); "
         "battery after every step on the locked branch object and on a fresh one: get_rev_id / revision_id_to_revno for every n and revision, "
         "revno map, dotted round trips for every revision in the ancestry, iter_merge_sorted_revisions, and specs N, -N, revno:, a.b.c, revid:, "
-        "before:, last:, tag:, ancestor:, mainline:, ranges; one evaluation = one query judged; non-trivial = history has a merge; "
+        "before:, last:, tag:, ancestor:, mainline:, branch-qualified revno:N:PATH / revno:a.b.c:PATH alone and inside mainline:, ranges; one evaluation = one query judged; non-trivial = history has a merge; "
         "distinct = (query form, outcome class, mainline/merged)")
 CASES = {"quick": 48, "thorough": 900}
-BUDGET_S = {"quick": 30, "thorough": 780}
+BUDGET_S = {"quick": 22, "thorough": 780}
 MIN_EVALS = {"quick": 3000, "thorough": 200000}
 FLOORS = {"quick": {"get_rev_id": 200, "id_to_revno": 200, "revno_map": 30, "dotted_roundtrip": 300, "merge_sorted": 30,
                     "spec_number": 200, "spec_negative": 100, "spec_dotted": 20, "spec_revid": 100, "spec_before": 100,
-                    "spec_last": 100, "spec_tag": 10, "spec_ancestor": 10, "spec_mainline": 60, "same_object_after_commit": 15},
+                    "spec_last": 100, "spec_tag": 10, "spec_ancestor": 10, "spec_mainline": 60, "same_object_after_commit": 15,
+                    "spec_cross_revno": 60, "spec_cross_mainline": 30, "spec_cross_mainline_merged_revision": 8},
           "thorough": {"get_rev_id": 20000, "id_to_revno": 20000, "revno_map": 2000, "dotted_roundtrip": 30000, "merge_sorted": 2000,
                        "spec_number": 20000, "spec_negative": 10000, "spec_dotted": 3000, "spec_revid": 10000, "spec_before": 10000,
                        "spec_last": 10000, "spec_tag": 1000, "spec_ancestor": 1000, "spec_mainline": 6000,
-                       "same_object_after_commit": 2000}}
+                       "same_object_after_commit": 2000, "spec_cross_revno": 6000, "spec_cross_mainline": 3000,
+                       "spec_cross_mainline_merged_revision": 800}}
 EXHAUSTIVE = {"quick": False, "thorough": False}
 ASSUMPTIONS = [
     "the model graph is the parents handed to commit (read back once per case from the repository and compared)",
@@ -395,6 +397,40 @@ class Battery:
                 self.expect(b, s, "spec_mainline", m, lh.index(m) + 1)
         for r in sorted(set(g.P) - anc)[:2]:
             self.expect(b, "mainline:revid:" + r.decode(), "spec_mainline", None, form="spec_mainline_foreign")
+        # specifiers that name their own branch: revno:N:PATH, revno:-N:PATH, revno:a.b.c:PATH - alone (the revision of the
+        # OTHER branch) and inside mainline: (still the CONTEXT branch's mainline revision that merged that revision)
+        from breezy.branch import Branch
+
+        for path, otip in self.others:
+            if otip not in g.P:
+                continue
+            olh = g.lh(otip)
+            on = len(olh)
+            try:
+                oM = dict(Branch.open(path).get_revision_id_to_revno_map())
+            except Exception:  # noqa: BLE001  only used to spell dotted revnos of the other branch
+                oM = {}
+            inner = [("revno:%d:%s" % (i + 1, path), r, i + 1) for i, r in enumerate(olh)]
+            inner.append(("revno:-1:%s" % path, olh[-1], on))
+            if on >= 2:
+                inner.append(("revno:-2:%s" % path, olh[-2], on - 1))
+            inner.append(("-1:%s" % path, olh[-1], on))
+            for r, d in sorted(oM.items()):
+                if len(d) == 3 and r in g.P:
+                    inner.append(("revno:%s:%s" % (".".join(map(str, d)), path), r, None))
+            for s_, r, rn in inner:
+                self.expect(b, s_, "spec_cross_revno", r, rn)
+                if s_.startswith("-"):
+                    continue
+                if r in anc:
+                    m = g.merger(lh, r)
+                    self.expect(b, "mainline:" + s_, "spec_cross_mainline", m, lh.index(m) + 1,
+                                form="spec_cross_mainline" if r not in main else "spec_cross_mainline_shared")
+                    if r not in main:
+                        self.ctx.count("spec_cross_mainline_merged_revision")
+                else:
+                    self.ctx.count("spec_cross_mainline_not_merged_skipped")
+            self.expect(b, "revno:%d:%s" % (on + 2, path), "spec_cross_revno", None, form="spec_cross_revno_oob")
         # ancestor:
         for path, otip in self.others:
             self.ctx.count("spec_ancestor")
